@@ -39,6 +39,10 @@ func NewTarsProtocol(dispatcher dispatch, imp interface{}, withContext bool) *Pr
 // Invoke puts the request as []byte and call the dispatcher, and then return the response as []byte.
 func (s *Protocol) Invoke(ctx context.Context, req []byte) (rsp []byte) {
 	defer CheckPanic()
+	if len(req) < 4 {
+		// not even a length header (only the UDP path can hand this over): nothing to answer
+		return nil
+	}
 	reqPackage := requestf.RequestPacket{}
 	rspPackage := requestf.ResponsePacket{}
 	is := codec.NewReader(req[4:])
@@ -197,6 +201,9 @@ func (s *Protocol) ParsePackage(buff []byte) (int, int) {
 
 // InvokeTimeout indicates how to deal with timeout.
 func (s *Protocol) InvokeTimeout(pkg []byte) []byte {
+	if len(pkg) < 4 {
+		return nil
+	}
 	rspPackage := requestf.ResponsePacket{}
 	//  invoke timeout need to return IRequestId
 	reqPackage := requestf.RequestPacket{}
